@@ -786,3 +786,44 @@ def _apply_helpers(facts):
         helpers[h].absorbed = True
         notes.append("unrecorded helper `%s` is analysed inlined into %s" % (h, ", ".join("`%s`" % fb.last2(g) for g in gs[:4]) + (" ..." if len(gs) > 4 else "")))
     return notes
+
+
+def expanded(facts, f, depth=2):
+    """A copy of fn `f` whose calls to other fns of the same type (`self.helper(..)`, `Self::helper(..)`; recorded or not, not recursive) are replaced by
+    their bodies - for rules that ask "does this fn, directly or through its own type's helpers, do X".  The fact base itself is not changed."""
+    if f.body is None:
+        return f
+    owner = f.impl_self
+    if not owner:
+        return f
+    helpers = {}
+    for g in facts.fn_list:
+        if g is f or g.kind == "closure" or g.body is None or g.impl_self != owner:
+            continue
+        if any(fb.callee(c) == g.def_ or fb.rcallee(c) == g.def_ for c in fb.calls_in(g.body)):
+            continue
+        helpers[g.def_] = g
+    if not helpers:
+        return f
+    body = copy.deepcopy(f.body)
+    # resolved trait-method calls (`self.next_id()` -> `<T as Trait>::next_id`) are looked up by their resolved name
+    for node in fb.walk(body):
+        if node.get("k") in ("call", "mcall") and node.get("rdef") and fb.norm(node["rdef"]) in helpers:
+            node["def"] = node["rdef"]
+    state = {"next": (_max_id(body) // 1000 + 1) * 1000, "used": set(), "stack": [f.def_]}
+    global MAX_DEPTH
+    old = MAX_DEPTH
+    MAX_DEPTH = depth
+    try:
+        body = _rewrite(body, helpers, state, 0)
+    finally:
+        MAX_DEPTH = old
+    if not state["used"]:
+        return f
+    d = dict(f.d)
+    d["body"] = body
+    g = fb.Fn(d, f.crate, f.unit)
+    g.body = body
+    g.facts = facts
+    g.absorbed_fns = sorted(set(list(f.absorbed_fns) + list(state["used"])))
+    return g
